@@ -138,7 +138,7 @@ def extend(g, api):
                 r'Frame::ImmediateAck => \{ self\.spaces\[SpaceId::Data\] \.pending_acks \.set_immediate_ack_required\(\); \}',
                 r'Frame::PathResponse\(token\) => \{ if self\.path\.challenge == Some\(token\) && remote == self\.path\.remote \{',
                 r'Frame::Padding \| Frame::Ping => \{\}',
-                r'Frame::Close\(reason\) => \{ close = Some\(reason\); \}']
+                r'Frame::Close\(reason\) => \{ close = Some\(reason\); (?:break; )?\}']
         for n in need:
             if not re.search(n, b):
                 raise TranslateError('process_payload: arm shape changed: ' + n[:60])
